@@ -75,6 +75,9 @@ func VT_C08_Include() {
 			vt.Assert(out.Id == id, "both-match-id")
 		}
 	}
+	// the change is shared by every subscriber of the collection: rewriting it for one predicate must not alter it
+	vt.Assert(vt.And(c.Id == id, c.ChangeType == ct, c.OldValue == oldV, c.NewValue == newV, c.SeedValue == seed, !c.LastSeedValue),
+		"include-does-not-alter-the-shared-change")
 	vt.Reach("done")
 }
 
